@@ -23,7 +23,39 @@ from dsim import simclock
 
 PROPERTY = "C14"
 SRC_DIR = None
-KNOWN_PREDICATES = {}
+
+
+def _pred_int_limit_hit(scenario, invariant, detail):
+    """D15: the two evaluations that differ ran under different int<->str
+    digit limits, and the text holds a run of digits longer than one of
+    them (so int() of that run was refused in one evaluation only)."""
+    lim = detail.get("int_limit")
+    run = detail.get("digit_run")
+    if not lim or run is None or lim[0] == lim[1]:
+        return False
+    finite = [x for x in lim if x > 0]
+    return bool(finite) and run > min(finite)
+
+
+KNOWN_PREDICATES = {"int_limit_hit": _pred_int_limit_hit}
+
+
+def longest_digit_run(op):
+    """Longest run of digit characters in the text of a call."""
+    best = cur = 0
+    t = op[2][1] if len(op) > 2 and isinstance(op[2], list) and \
+        len(op[2]) > 1 else ""
+    if not isinstance(t, str):
+        t = repr(t)
+    for ch in t:
+        if ch.isdigit():
+            cur += 1
+            if cur > best:
+                best = cur
+        else:
+            cur = 0
+    return best
+
 LEVEL_TEXT = (
     "Seeded search over call histories: generated texts (token grammar over "
     "the parser's own vocabulary, digit runs of length 1-40 and up to 5000, "
@@ -278,6 +310,11 @@ def gen_world_op(rng):
                             "ROUND_DOWN", "ROUND_UP"]),
                 rng.choice([None, None, "Rounded", "Inexact",
                             "Subnormal"])]
+    if r < 0.94:
+        # the interpreter's int<->str digit limit (sys.set_int_max_str_digits,
+        # PYTHONINTMAXSTRDIGITS): process configuration a host may change,
+        # and not one of the things the outcome may depend on
+        return ["intmax", rng.choice([0, 0, 640, 640, 4300, 100000])]
     return ["new_parser", rng.choice([0, 1]), rng.random() < 0.5,
             rng.random() < 0.5]
 
@@ -485,7 +522,11 @@ def outcome_of(fn):
         from dsim.kernel import SimBaseException
         if isinstance(e, SimBaseException):
             raise
-        out = ["exc", type(e).__name__, _ADDR.sub("0x?", str(e)[:300]),
+        try:
+            msg = str(e)[:300]
+        except ValueError:
+            msg = "<message not printable>"
+        out = ["exc", type(e).__name__, _ADDR.sub("0x?", msg),
                [c.__name__ for c in type(e).__mro__]]
     else:
         out = describe(r)
@@ -597,6 +638,10 @@ class Env(object):
         self.parser_mod = parser
         self.ctx = ctx
         self.clock = simclock.install()
+        import sys as _sys
+        self.intmax = _sys.get_int_max_str_digits() \
+            if hasattr(_sys, "get_int_max_str_digits") else 0
+        self.intmax0 = self.intmax
         self.set_tz(init.get("tz"))
         self.clock.t_min = self.clock.t_max = self.clock.t = float(
             init.get("clock", 1e9))
@@ -642,6 +687,12 @@ class Env(object):
                 # arithmetic
                 c.traps[getattr(decimal, op[3])] = True
             ctx.probe("decimal_context_changed")
+        elif op[0] == "intmax":
+            import sys
+            if hasattr(sys, "set_int_max_str_digits"):
+                sys.set_int_max_str_digits(op[1])
+                self.intmax = op[1]
+                ctx.probe("int_max_str_digits_changed")
         elif op[0] == "new_parser":
             P = self.parser_mod
             self.parsers[op[1]] = P.parser(P.parserinfo(dayfirst=op[2],
@@ -674,7 +725,10 @@ class Env(object):
         return outcome_of(fn)
 
     def snapshot(self):
-        return (self.clock.t, self.tz, self.parsers[0], self.parsers[1])
+        # (the int<->str digit limit is recorded, NOT restored: like the
+        # decimal context it is nothing the outcome may depend on)
+        return (self.clock.t, self.tz, self.parsers[0], self.parsers[1],
+                self.intmax)
 
     def restore(self, snap):
         self.clock.t = snap[0]
@@ -848,7 +902,9 @@ def execute(cls, scenario, ctx):
                 if fresh != _plain(out):
                     ctx.violation("C14.depends_on_history",
                                   dict(call=short(op), here=out[:3],
-                                       fresh_process=fresh[:3]))
+                                       fresh_process=fresh[:3],
+                                       int_limit=[env.intmax, env.intmax0],
+                                       digit_run=longest_digit_run(op)))
                 else:
                     ctx.probe("fresh_process_identical")
         pristine.close()
@@ -865,7 +921,9 @@ def execute(cls, scenario, ctx):
             if again != out:
                 ctx.violation("C14.not_deterministic",
                               dict(call=short(op), first=out[:3],
-                                   again=again[:3]))
+                                   again=again[:3],
+                                   int_limit=[snap[4], env.intmax],
+                                   digit_run=longest_digit_run(op)))
             else:
                 ctx.probe("repeat_identical")
             # the outcome is a function of the TEXT: the same characters
@@ -892,7 +950,9 @@ def execute(cls, scenario, ctx):
                 if not same:
                     ctx.violation("C14.depends_on_input_form",
                                   dict(call=short(op), as_stream=out[:3],
-                                       as_str=t[:3]))
+                                       as_str=t[:3],
+                                       int_limit=[snap[4], env.intmax],
+                                       digit_run=longest_digit_run(op)))
                 else:
                     ctx.probe("stream_and_str_identical")
         ctx.sim_clock_span = env.clock.span()
